@@ -2,7 +2,7 @@
 import json, os, re, pickle, hashlib
 
 ROOT = os.path.dirname(os.path.dirname(os.path.dirname(os.path.abspath(__file__))))
-CACHE = os.path.join(ROOT, '.cache')
+CACHE = os.environ.get('XV_CACHE', os.path.join(ROOT, '.cache'))
 FACTS = os.path.join(CACHE, 'facts')
 
 
